@@ -357,3 +357,39 @@ def add_pin_model(rng, P, tname, kind=None, gap=None, cap_flow=False):
                     q['flowrate'] *= f
                     q['nominal_flowrate'] *= f
     return kind
+
+
+def add_spacer_grid(rng, P, tname, dyadic=False, modes=('loss', 'REH', 'CDD')):
+    """Spacer grids inside the pin bundle of a type: 1-4 positions (listed in
+    any order), loss coefficient given or from a correlation."""
+    t = P['types'][tname]
+    regs = t.get('AxialRegion', {})
+    lo = max([0.0] + [v['z_hi'] for k, v in regs.items()
+                      if k.startswith('lo')])
+    hi = min([P['length']] + [v['z_lo'] for k, v in regs.items()
+                              if k.startswith('up')])
+    n = int(rng.integers(1, 5))
+    zs = set()
+    tries = 0
+    while len(zs) < n and tries < 50:
+        tries += 1
+        if dyadic:
+            z = float(rng.integers(1, 128)) / 128.0 * P['length']
+        else:
+            z = float(np.round(rng.uniform(lo, hi), 4))
+        if lo + 1e-6 < z < hi - 1e-6:
+            zs.add(z)
+    if not zs:
+        return []
+    order = sorted(zs)
+    if len(order) > 1 and rng.random() < 0.5:
+        order = [order[i] for i in rng.permutation(len(order))]
+    sg = {'axial_positions': order}
+    mode = choose(rng, list(modes))
+    if mode == 'loss':
+        sg['loss_coeff'] = float(rng.uniform(0.3, 3.0))
+    else:
+        sg['corr'] = mode
+        sg['solidity'] = float(rng.uniform(0.1, 0.5))
+    t['SpacerGrid'] = sg
+    return sorted(zs)
